@@ -260,6 +260,9 @@ func threadExit(s *Sched, t *Thread) {
 			s.kill()
 		}
 	}
+	if !s.dead {
+		s.event(t, 12, 0) // thread exit is an event (distinguishes it from the last point before it)
+	}
 	t.done = true
 	storeDone(t)
 	if !s.dead && s.cur == t {
@@ -352,6 +355,11 @@ func (s *Sched) schedule(t *Thread) {
 		return
 	}
 	s.steps++
+	if !t.done {
+		// a scheduling point is a (thread-local) event of its own: two consecutive points of
+		// one thread with no synchronisation in between are different program states
+		s.event(t, 11, 0)
+	}
 	if s.steps > s.cfg.Horizon {
 		s.res.Verdict = VHorizon
 		s.res.Msg = fmt.Sprintf("more than %d scheduling points", s.cfg.Horizon)
@@ -701,7 +709,7 @@ func NewMu() *Mu {
 
 //go:norace
 func site() string {
-	var pcs [6]uintptr
+	var pcs [14]uintptr
 	n := runtime.Callers(3, pcs[:])
 	fr := runtime.CallersFrames(pcs[:n])
 	out := ""
